@@ -61,11 +61,37 @@ def cargo_env():
     return env
 
 
+def tree_hash():
+    h = hashlib.sha256()
+    paths = [os.path.join(REPO, "Cargo.toml"), os.path.join(REPO, "Cargo.lock"), os.path.join(REPO, "build.rs")]
+    for root, dirs, files in os.walk(os.path.join(REPO, "src")):
+        dirs.sort()
+        for f in sorted(files):
+            paths.append(os.path.join(root, f))
+    for p in paths:
+        if os.path.exists(p):
+            h.update(p.encode())
+            with open(p, "rb") as f:
+                h.update(f.read())
+    return h.hexdigest()
+
+
 def build_delta():
     """(ok, log): build the hook-enabled binary from /repo's current working tree."""
     with Lock("cargo"):
+        # cargo decides freshness by mtime; a tree restored with old mtimes must still rebuild
+        th = tree_hash()
+        stamp = os.path.join(CACHE, "built_tree_hash")
+        old = open(stamp).read().strip() if os.path.exists(stamp) else ""
+        if old != th:
+            os.utime(os.path.join(REPO, "src", "main.rs"), None)
+            if os.path.exists(stamp):
+                os.unlink(stamp)
         rc, out = sh(["cargo", "rustc", "--offline", "--bin", "delta", "--target-dir", TARGET,
                       "--", "--cfg", GUARD], cwd=REPO, env=cargo_env(), timeout=3000)
+        if rc == 0 and os.path.exists(DELTA):
+            with open(stamp, "w") as f:
+                f.write(th)
     return rc == 0 and os.path.exists(DELTA), out
 
 
